@@ -43,7 +43,7 @@ structure Good (b : Bool) (st : St) : Prop where
   gtab : TableOk st.globals
   ltab : ∀ l, st.locals = some l → TableOk l
   inFile : b = true → st.locals.isSome = true ∧ st.localTasks.isSome = true
-  top : b = false → st.locals = none ∧ ∀ t ∈ st.globalTasks, t.notCopy = true
+  top : b = false → st.locals = none ∧ st.localTasks = none ∧ ∀ t ∈ st.globalTasks, t.notCopy = true
 
 /-- what a step may do to the parts other steps rely on: placed statements stay placed, and a task that is
 new in the global queue is not a `.global` closure -/
@@ -71,7 +71,7 @@ theorem TaskOk.mono {p q : List (Nat × Nat)} (h : p ⊆ q) {t : Task} (ht : Tas
 theorem good_init : Good false St.init :=
   ⟨Seg.inv_init, rfl, fun _ h => (by simp [St.init] at h), fun _ h => (by simp [St.init] at h),
    fun _ _ h => (by simp [St.init, Table.find] at h), fun _ h => (by simp [St.init] at h),
-   fun h => (by cases h), fun _ => ⟨rfl, fun _ h => (by simp [St.init] at h)⟩⟩
+   fun h => (by cases h), fun _ => ⟨rfl, rfl, fun _ h => (by simp [St.init] at h)⟩⟩
 
 /-! ## errors -/
 
